@@ -68,7 +68,7 @@ package sonic
 //@   ensures [depth] f.ioc.Dispatched == old(f.ioc.Dispatched)
 
 //@ func (*file).asyncReadNow
-//@   prop C01, C02, C14
+//@   prop C01, C02, C14, C19
 //@   requires fInv(f) && cb != nil && !armedR(f) && 0 <= readSoFar && readSoFar <= len(b)
 //@   requires f.readReactor.b == b && f.readReactor.readAll == readAll
 //@   // chunk k lands right after chunk k-1: the transport is handed exactly b[readSoFar:]
@@ -79,6 +79,7 @@ package sonic
 //@   ensures [armed] invoked(cb) == 0 ==> f.slot.Handlers[0] == f.readReactor.onRead &&
 //@           readSoFar <= f.readReactor.readSoFar && f.readReactor.readSoFar <= len(b) &&
 //@           f.readReactor.b == b && f.readReactor.readAll == readAll
+//@   ensures [C02,C19 work-left] invoked(cb) == 0 && old(readSoFar) < len(b) ==> f.readReactor.readSoFar < len(b)
 //@   ensures [depth] f.ioc.Dispatched == old(f.ioc.Dispatched)
 
 //@ func fnparam:(*fileReadReactor).onRead.cb
@@ -112,6 +113,8 @@ package sonic
 //@   consumes cb unless armedR(f)
 //@   // at the limit nothing is attempted inline: the operation is deferred to the poller
 //@   assert call file).Read: f.ioc.Dispatched < MaxCallbackDispatch
+//@   // the caller's callback is never run by the start function itself outside the counted window
+//@   assert any call cb: [C14 counted] f.ioc.Dispatched > old(f.ioc.Dispatched)
 //@   ensures [armed] invoked(cb) == 0 ==> f.readReactor.b == b && f.readReactor.readAll == readAll && f.readReactor.cb == cb &&
 //@           f.slot.Handlers[0] == f.readReactor.onRead && 0 <= f.readReactor.readSoFar && f.readReactor.readSoFar <= len(b)
 //@   ensures [depth] f.ioc.Dispatched == old(f.ioc.Dispatched)
@@ -131,7 +134,7 @@ package sonic
 //@   ensures [depth] f.ioc.Dispatched == old(f.ioc.Dispatched)
 
 //@ func (*file).asyncWriteNow
-//@   prop C01, C02, C14
+//@   prop C01, C02, C14, C19
 //@   requires fInv(f) && cb != nil && !armedW(f) && 0 <= wroteSoFar && wroteSoFar <= len(b)
 //@   requires f.writeReactor.b == b && f.writeReactor.writeAll == writeAll
 //@   // chunk k lands right after chunk k-1: the transport is handed exactly b[wroteSoFar:]
@@ -142,6 +145,9 @@ package sonic
 //@   ensures [armed] invoked(cb) == 0 ==> f.slot.Handlers[1] == f.writeReactor.onWrite &&
 //@           wroteSoFar <= f.writeReactor.wroteSoFar && f.writeReactor.wroteSoFar <= len(b) &&
 //@           f.writeReactor.b == b && f.writeReactor.writeAll == writeAll
+//@   // a continuation is armed only while bytes remain: a WriteAll that has moved everything is
+//@   // reported done now, not after waiting for writability to write nothing (which reads as EOF)
+//@   ensures [C02,C19 work-left] invoked(cb) == 0 && old(wroteSoFar) < len(b) ==> f.writeReactor.wroteSoFar < len(b)
 //@   ensures [depth] f.ioc.Dispatched == old(f.ioc.Dispatched)
 
 
@@ -176,6 +182,7 @@ package sonic
 //@   consumes cb unless armedW(f)
 //@   // at the limit nothing is attempted inline: the operation is deferred to the poller
 //@   assert call file).Write: f.ioc.Dispatched < MaxCallbackDispatch
+//@   assert any call cb: [C14 counted] f.ioc.Dispatched > old(f.ioc.Dispatched)
 //@   ensures [armed] invoked(cb) == 0 ==> f.writeReactor.b == b && f.writeReactor.writeAll == writeAll && f.writeReactor.cb == cb &&
 //@           f.slot.Handlers[1] == f.writeReactor.onWrite && 0 <= f.writeReactor.wroteSoFar && f.writeReactor.wroteSoFar <= len(b)
 //@   ensures [depth] f.ioc.Dispatched == old(f.ioc.Dispatched)
